@@ -6,7 +6,7 @@
    theorem is stated under the hypothesis [parse_d] (parse_path ∘ Path.d = id
    up to the equality C01 proves), named explicitly (`_partial`). *)
 From Coq Require Import String List Bool.
-From SVP Require Import Model.SvgIO Proofs.SvgIO Proofs.SvgDocHist.
+From SVP Require Import Model.SvgIO Model.SvgIOCheck Proofs.SvgIO Proofs.SvgDocHist.
 Import ListNotations.
 Open Scope string_scope.
 Open Scope list_scope.
@@ -157,6 +157,19 @@ Example C18_doc_add_path_repaired :
   = [[("d", "M0,0 L1,1"); ("id", "a")]].
 Proof. vm_compute. reflexivity. Qed.
 
+(* the element add_path creates carries the path that is added — a 'd' entry of
+   the supplied attribute dict (typical: dicts loaded with svg2paths, path
+   edited, add_path(edited, loaded_attribs)) is superseded — and every other
+   supplied attribute unchanged *)
+Theorem C18_doc_add_path_attributes : forall c d a,
+    lookup "d" (x_attrs (new_path_element c d a)) = Some d
+    /\ forall k, k <> "d" -> lookup k (x_attrs (new_path_element c d a)) = lookup k a.
+Proof. intros c d a. split; [apply new_path_d|intros k Hk; apply new_path_keeps, Hk]. Qed.
+Example C18_doc_add_path_stale_d :
+  dlist (doc_visible (run repaired [OpAddPath "M5,5 L6,6" [("d", "M0,0 L1,1"); ("id", "a")] []]
+                          (empty_document repaired))) = ["M5,5 L6,6"].
+Proof. vm_compute. reflexivity. Qed.
+
 (* svg2paths on a file saved by Document, pinned serialisation: exactly the
    path elements that carry no namespace; those of the SVG namespace are
    written svg:path and are not found *)
@@ -209,6 +222,7 @@ Print Assumptions C18_save_reload.
 Print Assumptions C18_doc_history_refuted.
 Print Assumptions C18_doc_history.
 Print Assumptions C18_doc_add_path_refuted.
+Print Assumptions C18_doc_add_path_attributes.
 Print Assumptions C18_doc_save_svg2paths_pinned.
 Print Assumptions C18_doc_save_svg2paths.
 Print Assumptions C18_doc_save_svg2paths_refuted.
